@@ -213,6 +213,7 @@ ExportIndex(name) == IF \E x \in 1..Len(mod.exports) : mod.exports[x].name = nam
 Call(c) == LET k == ExportIndex(c.name) IN
            IF k = 0 THEN [t |-> "noexport"]
            ELSE IF Len(c.args) # Len(mod.types[mod.funcs[k] + 1].params) THEN [t |-> "arity"]
+           ELSE IF \E j \in 1..Len(c.args) : IsBad(c.args[j]) THEN OOD          \* an argument outside the exact domain
            ELSE Run(k, 1, c.args \o [j \in 1..Len(mod.codes[k].locals) |-> ZeroOf(mod.codes[k].locals[j])], <<>>)
 
 -----------------------------------------------------------------------------
